@@ -219,7 +219,14 @@ fn connection(r: &mut Rng, kind: u64, v6: bool) -> Vec<Vec<u8>> {
             let ua = *r.pick(&["curl/7.68.0", "Mozilla/5.0 (X11; Linux x86_64) AppleWebKit/537.36 (KHTML, like Gecko) Chrome/120.0 Safari/537.36", "Wget/1.20"]);
             let req = format!("GET /{} HTTP/1.1\r\nHost: example.org\r\nUser-Agent: {}\r\nAccept: */*\r\nAccept-Language: en-US,en;q=0.8\r\nConnection: keep-alive\r\n\r\n",
                               r.below(100), ua);
-            let mut d = Tcp::new(cport, sport, PSH | ACK); d.seq = isn_c.wrapping_add(1); d.ack = isn_s.wrapping_add(1); d.payload = req.into_bytes();
+            // the request in two segments; the first one may be a packet the TCP analyzer rejects (illegal flag
+            // combination, IP fragment) while the HTTP reassembler still consumes its payload
+            let rb = req.into_bytes(); let cut = 1 + r.below(rb.len() as u64 - 1) as usize;
+            let odd = r.below(4);
+            let mut d1 = Tcp::new(cport, sport, if odd == 1 { PSH } else { PSH | ACK }); d1.seq = isn_c.wrapping_add(1); d1.ack = isn_s.wrapping_add(1); d1.payload = rb[..cut].to_vec();
+            d1.options = [opt_nop(), opt_nop(), opt_ts(ts0 + 60, ts0 / 2 + 7)].concat();
+            if v6 || odd != 2 { out.push(mk(true, d1, 64)); } else { let mut ip = Ip4::new(c4, s4); ip.mf = true; ip.df = false; out.push(ether4(&ip, &d1)); }
+            let mut d = Tcp::new(cport, sport, PSH | ACK); d.seq = isn_c.wrapping_add(1 + cut as u32); d.ack = isn_s.wrapping_add(1); d.payload = rb[cut..].to_vec();
             d.options = [opt_nop(), opt_nop(), opt_ts(ts0 + 60, ts0 / 2 + 7)].concat();
             out.push(mk(true, d, 64));
             let resp = format!("HTTP/1.1 200 OK\r\nServer: {}\r\nContent-Type: text/html\r\nContent-Length: 5\r\n\r\nhello", r.pick(&["Apache/2.4.41 (Ubuntu)", "nginx/1.18.0"]));
